@@ -399,3 +399,37 @@ pub fn exec_qf(m: &HashMap<String, String>) -> String {
         .collect();
     format!("{{\"result\":\"{}\",\"reach_ok\":{},\"slots\":[{}],\"len\":{}{}}}", result, reach_ok, slots.join(","), f.len(), extra)
 }
+
+// ---------------------------------------------------------------- HLL deserialisation
+pub fn exec_serde(m: &HashMap<String, String>) -> String {
+    use crate::h_serde::{Doc, DocDe, VErr};
+    use pdatastructs::hyperloglog::HyperLogLog;
+    use serde::Deserialize;
+    let fields: Vec<u8> = m
+        .get("doc")
+        .map(|s| s.as_str())
+        .unwrap_or("")
+        .split(',')
+        .filter(|x| !x.is_empty())
+        .map(|f| match f.trim() {
+            "registers" => 0u8,
+            "b" => 1,
+            _ => 2,
+        })
+        .collect();
+    let len: usize = m["len"].parse().unwrap();
+    let b: u64 = m["b"].parse().unwrap();
+    let mut order = [0u8; 4];
+    for (i, f) in fields.iter().enumerate().take(4) {
+        order[i] = *f;
+    }
+    let doc = Doc { order: [order[0], order[1], order[2]], n: fields.len().min(3), b, regs: vec![0u8; len], pos: 0 };
+    if fields.len() > 3 {
+        return "{\"error\":\"documents with more than 3 entries are not supported by the native executor\"}".to_string();
+    }
+    let r: Result<HyperLogLog<H64, IdBH>, VErr> = HyperLogLog::deserialize(DocDe(doc));
+    match r {
+        Ok(h) => format!("{{\"result\":\"ok\",\"b\":{},\"len\":{}}}", h.b(), h.registers().len()),
+        Err(_) => "{\"result\":\"err\"}".to_string(),
+    }
+}
